@@ -43,11 +43,21 @@ pub fn handle(op: &str, a: &[&str]) -> Option<Resp> {
                 }
                 // the live result of `Deb822::wrap_and_sort(None, None)` on the parsed text: its root
                 // holds the free-standing comment lines as bare COMMENT / NEWLINE tokens (F-C05-3)
-                ["w", t] => {
+                [wkind @ ("w" | "ws"), t] => {
                     let s = ds(t)?;
                     let wf = Deb822::from_str(&s).is_ok() && !s.contains('\r');
                     let d0 = Deb822::from_str_relaxed(&s).0;
-                    let w = std::panic::catch_unwind(std::panic::AssertUnwindSafe(|| d0.wrap_and_sort(None, None)));
+                    // `ws`: with a paragraph order (by the Package field), which moves paragraphs and the
+                    // comment lines in front of them
+                    let by_pkg = |a: &Paragraph, b: &Paragraph| a.get("Package").cmp(&b.get("Package"));
+                    let sorted = *wkind == "ws";
+                    let w = std::panic::catch_unwind(std::panic::AssertUnwindSafe(|| {
+                        if sorted {
+                            d0.wrap_and_sort(Some(&by_pkg), None)
+                        } else {
+                            d0.wrap_and_sort(None, None)
+                        }
+                    }));
                     match w {
                         Ok(w) => (w, wf),
                         Err(_) => return Some(Resp::with("PANIC".into(), if wf { Some("wrap_and_sort panicked".into()) } else { None })),
@@ -321,6 +331,9 @@ fn start_states() -> Vec<String> {
     for t in ["# top\n\nA: a\n\n# mid\n\nB: b\n", "# top\nA: a\n\n# about B\nB: b\n", "# only\n", "A: b\n\nB: c", "A: b\n# in\nC: d\n\n# tail\n",
               "A", "A: b\nC", "A: b\n\nC"] {
         v.push(format!("w.{}", es(t)));
+    }
+    for t in ["# top\n\nPackage: b\nA: 1\n\n# about a\nPackage: a\n", "Package: b\n\nA: x\n\n# c\n\nPackage: a", "# only\n", "Package: z\n# in\nA: 1\n\n\n\nPackage: m\n\n# tail\n"] {
+        v.push(format!("ws.{}", es(t)));
     }
     let docs: Vec<Vec<Vec<(String, String)>>> = vec![
         vec![],
